@@ -40,14 +40,14 @@ PROPERTIES = {
         "level_note": "A1-A8; theorem L-conv assumed; rate measured only on the bounded family of bounded/C01.py.",
     },
     "C02": {
-        "modules": ["solver", "lemmas", "purity", "utilsc"], "level": "proof", "floor": 1500,
+        "modules": ["solver", "lemmas", "purity", "utilsc", "ivp"], "level": "proof", "floor": 1500,
         "assumptions": SOLVER_ASSUME, "trusted": [T["Z3"], T["D4"], T["DFT"], T["IVPC"]],
         "explanation": "Reciprocity holds iff (B.2) both modes share the retained set and transfer functions, the footprint spectrum is H/N times cis(kappa.(r_m + P)) with P the PADDED offset (px*dx, py*dy), the footprint is transformed with the e^{-i} sums, and both are cropped by the pad widths: these are clauses of SC/TC proved on the code for symbolic sizes, halos (incl. None and incommensurate), truncations, levels and profiles; point_measurement returns sum(f*g).",
         "level_text": "All clauses the DFT reciprocity computation needs are postconditions of the real solver proved for all inputs; the computation itself (D4) is textbook and assumed.",
         "level_note": "A1-A8, D4 assumed (native conformance in bounded/C02.py); closures/precisions enter only through symbolic profiles and A1.",
     },
     "C03": {
-        "modules": ["solver", "lemmas"], "level": "proof", "floor": 1500,
+        "modules": ["solver", "lemmas", "ivp"], "level": "proof", "floor": 1500,
         "assumptions": SOLVER_ASSUME, "trusted": [T["Z3"], T["D1"], T["DFT"], T["IVPC"]],
         "explanation": "DC clauses of SC: fftq[k,0,0] = S00 for every level (numeric and analytic), fftp[k,0,0] = p000 - S00*R(level_k) with R the trapezoid resistance (loop invariant of the mean-mode loop) or h/Kz (analytic), phase = 1 at DC; footprint source = 1/(nxe*nye) so N*DC = 1; halo == explicit padding as a lemma over the contract (same dx, dy, padded sizes, spectra; crop).",
         "level_text": "Conservation statements are postconditions/loop invariants of the real solver proved for all inputs; mean <-> DC bin is textbook (D1).",
@@ -68,7 +68,7 @@ PROPERTIES = {
         "level_note": "A1-A8; L-conv assumed for the corollary.",
     },
     "C06": {
-        "modules": ["solver", "lemmas", "purity"], "level": "proof", "floor": 700,
+        "modules": ["solver", "lemmas", "purity", "ivp"], "level": "proof", "floor": 700,
         "assumptions": SOLVER_ASSUME, "trusted": [T["Z3"], T["D3"], T["D5"], T["DFT"], T["IVPC"]],
         "explanation": "SC: transfer functions independent of source and measurement point; phase factors exactly cis(kappa.(r_m+P)) (footprint) and cis(kappa.(r_m - L/2)) iff r_m != 0 (dispersion); wavenumbers built from dx, dy and the PADDED sizes on the right axes; transform directions (TC). Whole-cell shifts are integer multiples of the bin angle (lemma). Translation then follows by the shift theorem D3 / reflection D5.",
         "level_text": "All code-level clauses proved for all inputs; the DFT shift/reflection theorems are textbook.",
@@ -89,14 +89,14 @@ PROPERTIES = {
         "level_note": "A1-A6.",
     },
     "C11": {
-        "modules": ["solver"], "level": "proof", "floor": 1500,
+        "modules": ["solver", "ivp"], "level": "proof", "floor": 1500,
         "assumptions": SOLVER_ASSUME, "trusted": [T["Z3"], T["DFT"], T["IVPC"]],
         "explanation": "GEO in linear integer arithmetic over symbolic nx, ny, px, py, modes: raises exactly for odd modes / unknown precision / odd gap after the per-axis clamp, otherwise returns shape squeeze((m,ny,nx)) with X=i*dx, Y=j*dy; registration of every retained bin in and out (SC at fresh symbolic bins); low-pass: SC depends on the mode counts only through the retained set; clamp per axis.",
         "level_text": "Shape, registration and exceptional behaviour proved for all grid sizes, halos and mode counts.",
         "level_note": "A1-A6.",
     },
     "C12": {
-        "modules": ["purity"], "level": "other", "floor": 1600,
+        "modules": ["purity", "ivp"], "level": "other", "floor": 1600,
         "assumptions": SOLVER_ASSUME, "trusted": [T["Z3"], T["DFT"], T["IVPC"]],
         "explanation": "PROVED (real arithmetic): the result term of S is the same specification for every value of config.NUM_THREADS and for both storage precisions (the spec mentions neither), S and ivp_solver read no module-level name other than the declared ones, declare no global, write no module attribute, have no mutable default, do not mutate their arguments; get_fft_manager returns a manager with the requested thread count from any previous state; fft2/ifft2 forward their argument and norm to the library transform of the same direction; the kernel wrapper returns the kernel of the decorated body on the same arguments from any _compiled state. NOT decided by contracts: bit-identity, 1e-12 agreement across thread settings/processes, 1e-5 single/double agreement (floating point, schedulers): BOUNDED call sequences (bounded/C12.py).",
         "level_text": "Frame conditions proved on the real code; floating-point and scheduling clauses are outside this family and covered by a bounded stand-in, labelled bounded.",
@@ -117,7 +117,7 @@ PROPERTIES = {
         "level_note": "Executor.map contract assumed; distinct tower names required.",
     },
     "C15": {
-        "modules": ["cachec", "purity"], "level": "proof", "floor": 500,
+        "modules": ["cachec", "purity", "ivp"], "level": "proof", "floor": 500,
         "assumptions": COMMON + [A["A7"]], "trusted": [T["Z3"], T["NPLOAD"], T["IVPC"], T["DFT"]],
         "explanation": "Frame obligation on the symbolic result of S: every input symbol the footprint-mode result depends on is hashed into the lookup key; get-key == put-key on all halo paths; a hit returns the stored triple without solving; misses store exactly the returned result once; dispersion mode never touches the cache; _compute_key hashes every argument and nothing else; get() never raises and returns None for an unreadable entry under the np.load contract.",
         "level_text": "Completeness/effectiveness/transparency proved on the real solver prologue/epilogue and cache class; crash-safety under the stated np.load contract.",
@@ -179,6 +179,8 @@ PROPERTIES.update({
 
 for _k, _p in PROPERTIES.items():
     _p.setdefault("np_conformance", _k in ("C01", "C02", "C03", "C04", "C05", "C06", "C07", "C10", "C11", "C12", "C15", "C18", "C19", "C20"))
+for _k, _p in PROPERTIES.items():
+    _p.setdefault("dft_conformance", _k in ("C02", "C03", "C04", "C06", "C07", "C12"))
 for _p in PROPERTIES.values():
     _p.setdefault("technique", TECH)
     _p.setdefault("bounded", True)
